@@ -1,7 +1,7 @@
 //! family `worker` (C12): worker thread × control thread × guest kick of a real `VhostUserDaemon`, interleaved at the hold
 //! points of feature `verif-hooks`.
 //!
-//! scenario:  `worker scen=disable|stop|reset cfg=mutex|rwlock sched=<tok>,<tok>,...`
+//! scenario:  `worker scen=disable|stop|stopnf|reset cfg=mutex|rwlock sched=<tok>,<tok>,...`
 //!   Setup (controller disarmed): 1 ring (`reset`: 2 rings), features with bit 30 acknowledged, ring 0 started with a
 //!   non-blocking eventfd `fd0` and enabled, worker idle.  Then the controller is armed: the worker thread parks at every
 //!   `worker.*` hold point and the daemon's request thread at every `ctl.*` hold point, and each schedule token lets exactly
@@ -15,13 +15,17 @@
 //!        reset:   RESET_DEVICE = `x.state` `x.epoll` (ring 0) `x.state1` `x.epoll1` (ring 1, not started) `x.reply`;
 //!        stop:    GET_VRING_BASE(0) = `s.state` `s.epoll` `s.drop` `s.reply`, then SET_VRING_KICK(0, fresh non-blocking `fd1`) =
 //!                 `r.state` `r.ready` `r.epoll` `r.reply`;
+//!        stopnf:  GET_VRING_BASE(0) = `s.state` `s.epoll` `s.drop` `s.reply`, then SET_VRING_KICK(0) with the no-descriptor
+//!                 flag (payload bit 8, no fd) = `n.state` `n.epoll` `n.reply` (a descriptor-less SET_VRING_KICK does not
+//!                 start a ring: `vring_needs_init` is false, there is no `n.ready`);
 //!        the first token of a message sends it (the request thread runs up to its first hold point, which lies after the
 //!        state change); the last one lets the handler return and receives the reply.  What a token did is *observed* (hold
 //!        point reached / reply readable), not assumed.
 //!   Epilogue (controller disarmed, everything runs free): outstanding replies are received, the worker is drained with the
 //!   bench barrier (`n1` = handler calls for ring 0 so far); the ring is activated again (disable: SET_VRING_ENABLE(0,1);
-//!   reset: SET_FEATURES with bit 30 + SET_VRING_ENABLE(0,1); stop: nothing, the restart is part of the schedule) and drained
-//!   (`n2`); one more guest kick on the current descriptor, drained (`n3`).
+//!   reset: SET_FEATURES with bit 30 + SET_VRING_ENABLE(0,1); stop: nothing, the restart is part of the schedule; stopnf: the
+//!   proper restart, SET_VRING_KICK(0, fresh non-blocking `fd1`)) and drained (`n2`); one more guest kick on the current
+//!   descriptor, drained (`n3`).
 //! observation: `tr=<t>,<t>,... end=<n1>.<n2>.<n3> alive=<0|1> fin=<bits>` — one trace token per schedule token:
 //!   `k`, `d.state` … (the hold point reached, `.reply` when the reply arrived), `c.none` (no message left),
 //!   `w.idle` (wait returned without the ring's event), `w.woken`, `w.chk` (passed to `worker.pre_read`), `w.skip` (returned
@@ -234,6 +238,10 @@ where
             Msg { tag: "s", code: codes::GET_VRING_BASE, body: peer::b_vring_state(0, 0), fresh_fd: false },
             Msg { tag: "r", code: codes::SET_VRING_KICK, body: peer::b_vring_fd(0, true), fresh_fd: true },
         ],
+        "stopnf" => vec![
+            Msg { tag: "s", code: codes::GET_VRING_BASE, body: peer::b_vring_state(0, 0), fresh_fd: false },
+            Msg { tag: "n", code: codes::SET_VRING_KICK, body: peer::b_vring_fd(0, false), fresh_fd: false },
+        ],
         other => panic!("unknown scenario {}", other),
     };
     msgs.reverse();
@@ -348,6 +356,11 @@ where
         "reset" => {
             conn_ok &= b.peer.set(codes::SET_FEATURES, &peer::b_u64(feats), &[]) == Ack::Ok;
             conn_ok &= b.peer.set(codes::SET_VRING_ENABLE, &peer::b_vring_state(0, 1), &[]) == Ack::Ok;
+        }
+        "stopnf" => {
+            // the proper restart: a SET_VRING_KICK that carries a descriptor
+            fds.push(peer::eventfd(true));
+            conn_ok &= b.peer.set(codes::SET_VRING_KICK, &peer::b_vring_fd(0, true), &[fds.last().unwrap().as_raw_fd()]) == Ack::Ok;
         }
         _ => {}
     }
